@@ -643,3 +643,6 @@ UNITS += [find_subclass_action_or_class_group_unit("C16"), get_nested_links_unit
 
 from contracts.any_units import typehint_instantiate_unit  # noqa: E402
 UNITS.append(typehint_instantiate_unit("C16"))
+
+from contracts.share import carried as _carried  # noqa: E402
+UNITS += _carried("C16")
